@@ -12,6 +12,7 @@ import (
 	"sort"
 	"strings"
 	"sync"
+	"sync/atomic"
 	"time"
 
 	"github.com/drand/drand/v2/common"
@@ -30,10 +31,10 @@ var Deadline = 2 * time.Second
 // anomalies counts the non-blocking scenarios of this run in which something that must happen at
 // once did not happen within the deadline. After a few of them the run is a violation anyway and
 // the remaining scenarios stop waiting the full deadline for such things.
-var anomalies int
+var anomalies int32
 
 func patience() time.Duration {
-	if anomalies >= 3 {
+	if atomic.LoadInt32(&anomalies) >= 3 {
 		return 200 * time.Millisecond
 	}
 	return Deadline
@@ -530,13 +531,13 @@ func Run(outDir string, seed int64, tier string) error {
 			}(i, sc)
 		}
 	}
-	anomalies = 0
+	atomic.StoreInt32(&anomalies, 0)
 	for i, sc := range scs {
 		if !sc.blocking {
 			w := newWorld()
 			outs[i] = outcome{sc, w.run(sc.script, nil)}
 			if w.short {
-				anomalies++
+				atomic.AddInt32(&anomalies, 1)
 			}
 		}
 	}
